@@ -334,12 +334,16 @@ def private_type_helpers(crate, exclude=()):
     carriers introduced by a refactor; they are inlined into the analysis of their callers like private methods"""
     ex = {b.key for b in exclude if b is not None}
     priv = {a["key"] for a in crate.adts if not a.get("pub")}
+    own_traits = {str(t.get("path")) for t in (getattr(crate, "traits", None) or [])}
     out = []
     for b in crate.bodies:
         if b.is_closure or b.kind != "AssocFn" or b.key in ex or self_recursive(b):
             continue
         imp = crate.impl_of(b)
         if imp is not None and not imp.get("of_trait") and imp.get("self_adt") in priv:
+            out.append(b)
+        # ... and their impls of the crate's own traits (`impl LinkRule for BySize`): the one instantiation of a seam
+        elif imp is not None and imp.get("self_adt") in priv and str(imp.get("trait") or "") in own_traits and not imp.get("derived"):
             out.append(b)
     return out
 
